@@ -82,6 +82,9 @@ def sends_leave_in_fifo_order_paced(n: int, d1: bytes, d2: bytes, d3: bytes, las
         ensures("first-queued-send-is-removed", s._send_handlers == before[1:])
         if broken or netfail:
             ensures("failing-send-is-contained-and-dropped", len(wire.sent) == 0)
+            if netfail and not broken:
+                # the request stays registered and will be retransmitted: the retry needs to know where to
+                ensures("a-send-that-failed-on-the-wire-still-remembers-its-destination", hs[0].last_destination == ("10.0.0.9", 10022))
         else:
             ensures("exactly-the-first-queued-datagram-leaves", both(len(wire.sent) == 1, wire.sent[0][0] is d1))
             ensures("destination-is-address-and-port", wire.sent[0][1] == ("10.0.0.9", 10022))
@@ -285,6 +288,9 @@ class RxWire(Wire):
         self.data = data
 
     def recvfrom(self, size):
+        self.reads = getattr(self, "reads", 0) + 1
+        if self.reads > 1:
+            raise _socket_mod.timeout("nothing more waiting")      # only ever reached if the step reads more than once
         if self.mode == 0:
             raise _socket_mod.timeout("timed out")
         if self.mode == 1:
@@ -326,6 +332,7 @@ def receive_step_contains_every_failure(mode: int, where: int, data: bytes):
     where = concrete_cases(where, 0, 3)
     Touchy.log = []
     s = make_socket(RxWire(mode, data))
+    s._exit_event = ExitEvent(False)
     s._receive_handlers = [Touchy(where)]
     escaped = False
     try:
@@ -333,6 +340,7 @@ def receive_step_contains_every_failure(mode: int, where: int, data: bytes):
     except Exception:
         escaped = True
     ensures("no-exception-leaves-the-receive-step", not escaped)
+    ensures("one-datagram-per-engine-pass", s._socket.reads == 1)       # retry / cleanup of the other steps run between two datagrams
     ensures("engine-not-left-busy", s._busy_count == 0)
     ensures("handlers-stay-registered", len(s._receive_handlers) == 1)
     if mode != 3:
@@ -496,3 +504,7 @@ def finishing_step_builds_the_accessors_and_connects_once(combo, block: bytes):
 # the simulator side of the handshake with its unreliability switched on (shared with C01)
 harness(prop="C20", target="geckolib.utils.simulator:GeckoSimulator._on_status_block", uses=["arbitrary_loss"], loops=["sim_lossy_loop"],
         name="lossy_simulator_never_sends_a_shifted_segment")(c01_transfer.lossy_simulator_sends_only_elements_of_the_chain)
+
+
+# lexical: a lock-protected shared list is only ever replaced by a read-modify-write inside ONE locked section
+# (a rebuild from a snapshot taken in an earlier section loses what another thread registered in between): pyvc/lexical.py
